@@ -329,6 +329,10 @@ func (w *world) roundCheck(j *judge, p string) (res string) {
 		}
 		return
 	}
+	if res == "fail" {
+		j.violate("round/exchange-abandoned/check", fmt.Sprintf("node %s: peer %s is online and answered the type check, but the round dropped the exchange", p, q.id))
+		return
+	}
 	if !sp {
 		if res != "missing" {
 			j.violate("round/space-missing-not-pushed", fmt.Sprintf("node %s: peer %s does not hold the space, the type check ended with %q instead of a SpacePush", p, q.id, res))
@@ -392,6 +396,14 @@ func (w *world) roundPush(j *judge, p string) (res string) {
 
 // roundDiff releases the range requests of ldiff.Diff until the round parks at applyDiff
 func (w *world) roundDiff(j *judge, p string) (res string, reqs int) {
+	return w.roundDiffTorn(j, p, nil)
+}
+
+// roundDiffTorn: between the request rounds of one Diff, `between` changes the indexes of both sides (the
+// headUpdater goes on working while a round is running). The result cannot be exact then; what still must
+// hold is judged in roundApply (torn): nothing tombstoned, no acl / key-value id, no id twice, and nothing
+// that was equal on both sides before and after.
+func (w *world) roundDiffTorn(j *judge, p string, between func()) (res string, reqs int) {
 	n := w.nodes[p]
 	g := n.parked
 	if g == nil || g.kind != "req" || g.conn.nreq == 0 {
@@ -407,10 +419,15 @@ func (w *world) roundDiff(j *judge, p string) (res string, reqs int) {
 	if !on {
 		defer func() { w.checkAdvance(j, n, q.id, next, "failed-diff") }()
 	}
+	torn := false
 	for {
 		n.release()
 		ng := w.waitRound(n)
 		if ng.kind == "req" && ng.conn == c {
+			if between != nil {
+				between()
+				torn = true
+			}
 			continue
 		}
 		if ng.kind == "filter" {
@@ -428,9 +445,47 @@ func (w *world) roundDiff(j *judge, p string) (res string, reqs int) {
 		}
 		return
 	}
+	if res == "fail" {
+		// every request was answered: the differences must reach applyDiff
+		j.violate("round/exchange-abandoned/diff", fmt.Sprintf("node %s: peer %s is online and answered all %d range requests, but the round ended the exchange without applyDiff", p, q.id, reqs))
+		return
+	}
 	if res == "ok" {
 		nw, ch, rm := diffViews(vp, vq)
 		n.pendingDiff = &diffExpect{New: nw, Chg: ch, Rem: rm, Diffed: true}
+		if torn {
+			vp2, _ := n.index()
+			vq2, _ := q.index()
+			nw2, ch2, rm2 := diffViews(vp2, vq2)
+			n.pendingDiff.Torn = true
+			n.pendingDiff.Either = map[string]bool{}
+			for _, l := range [][]string{nw, ch, rm, nw2, ch2, rm2} {
+				for _, id := range l {
+					n.pendingDiff.Either[id] = true
+				}
+			}
+			// ids touched in between may show up whatever their final state
+			for id, h := range vp2 {
+				if vp[id] != h {
+					n.pendingDiff.Either[id] = true
+				}
+			}
+			for id, h := range vq2 {
+				if vq[id] != h {
+					n.pendingDiff.Either[id] = true
+				}
+			}
+			for id := range vp {
+				if _, ok := vp2[id]; !ok {
+					n.pendingDiff.Either[id] = true
+				}
+			}
+			for id := range vq {
+				if _, ok := vq2[id]; !ok {
+					n.pendingDiff.Either[id] = true
+				}
+			}
+		}
 	}
 	return
 }
@@ -498,6 +553,21 @@ func (w *world) roundApply(j *judge, p string) (o applyObs) {
 	if !exp.Diffed && (len(call.Existing) > 0 || len(call.Missing) > 0 || o.Acl || o.Kv) {
 		j.violate("round/jobs-after-equal-hash", fmt.Sprintf("node %s: the hashes were equal but SyncAll got existing %v missing %v (acl %v kv %v)", p, trunc(call.Existing), trunc(call.Missing), o.Acl, o.Kv))
 	}
+	if exp.Torn {
+		// the indexes changed while the diff was running: only what cannot be excused
+		seen := map[string]bool{}
+		for _, id := range append(append([]string{}, call.Existing...), call.Missing...) {
+			if seen[id] {
+				j.violate("round/id-handed-over-twice", fmt.Sprintf("node %s: id %s occurs twice in SyncAll(existing %v, missing %v)", p, id, trunc(call.Existing), trunc(call.Missing)))
+			}
+			seen[id] = true
+			if !exp.Either[id] {
+				j.violate("round/equal-id-handed-over", fmt.Sprintf("node %s: id %s was equal on both sides before and after the diff and untouched in between, but was handed to the tree syncer", p, id))
+			}
+		}
+		w.addJobs(p, q.id, call, o)
+		return
+	}
 	// RoundReducesDifference: every difference that is not tombstoned here is handed to a syncer
 	for _, id := range expMissing {
 		if !contains(call.Missing, id) {
@@ -524,20 +594,23 @@ func (w *world) roundApply(j *judge, p string) (o applyObs) {
 				p, trunc(o.Existing), trunc(o.Missing), o.Acl, o.Kv, trunc(expExisting), trunc(expMissing), wantAcl, wantKv)
 		}
 	}
-	// the jobs
+	w.addJobs(p, q.id, call, o)
+	return
+}
+
+func (w *world) addJobs(p, q string, call syncAllCall, o applyObs) {
 	for _, id := range call.Missing {
-		w.tasks[task{F: p, T: q.id, I: id, K: "missing"}] = true
+		w.tasks[task{F: p, T: q, I: id, K: "missing"}] = true
 	}
 	for _, id := range call.Existing {
-		w.tasks[task{F: p, T: q.id, I: id, K: "existing"}] = true
+		w.tasks[task{F: p, T: q, I: id, K: "existing"}] = true
 	}
 	if o.Acl {
-		w.tasks[task{F: p, T: q.id, I: w.aclId, K: "acl"}] = true
+		w.tasks[task{F: p, T: q, I: w.aclId, K: "acl"}] = true
 	}
 	if o.Kv {
-		w.tasks[task{F: p, T: q.id, I: w.kvId, K: "kv"}] = true
+		w.tasks[task{F: p, T: q, I: w.kvId, K: "kv"}] = true
 	}
-	return
 }
 
 var (
